@@ -681,6 +681,7 @@ def _split_targs(s):
 
 META_EXTRA = "NEG (no negation of a possibly-minimum signed value); SIGN ('-' on every path that may format a negative value); CASTSIGN (no cast of the caller's value to a fixed signed type); OVFCHK (accumulation only after an unconditional overflow test); OVFCONST (exact thresholds limit / base, |limit % base|); OVFPRED (the overflow predicate evaluated over the six orderings of (value, digit) against the two thresholds); BUFLEN (a local array is handed to the kernel with its own extent as length); PARSE (front ends parse in the type they deliver, with the standard's white-space option); PARAM."
 META = (META[0] + " " + META_EXTRA, META[1])
+META = (META[0] + ' RETARG; SIBNAME (width siblings have one body).', META[1])
 
 
 def run(chk, tier):
